@@ -1,6 +1,10 @@
 package lib
 
-import "fmt"
+import (
+	"fmt"
+	"math/rand"
+	"strings"
+)
 
 var urlKinds = []string{"string", "int32", "int64", "uint32", "uint64", "sint32", "sint64", "fixed32", "fixed64", "sfixed32", "sfixed64", "bool", "double", "float"}
 
@@ -124,4 +128,342 @@ func OddTemplateRequest() *Request {
 	r := OneFile(id, pkg, f)
 	r.Tags = []string{"runtime", "odd-template"}
 	return r
+}
+
+// ---- path variables versus declaration order ------------------------------------------------------
+//
+// The path template lists its variables in URL order; the request message declares the bound fields in
+// whatever order (and with whatever numbers) its author chose.  Every generator has to pair a variable
+// with the field of the SAME NAME.  The family puts 2 and 3 variables in every permutation relative to
+// the declaration order, with distinct kinds per variable (so that a mix-up either swaps two values or
+// feeds a string to an integer parser), field numbers that follow or contradict the declaration order,
+// unbound fields declared between the bound ones, on every verb.
+
+func permutations(n int) [][]int {
+	if n == 1 {
+		return [][]int{{0}}
+	}
+	var out [][]int
+	for _, p := range permutations(n - 1) {
+		for pos := 0; pos <= len(p); pos++ {
+			q := append(append(append([]int{}, p[:pos]...), n-1), p[pos:]...)
+			out = append(out, q)
+		}
+	}
+	return out
+}
+
+// pathOrderRPC: declared = names of the bound fields in declaration order; perm[i] = index (into declared)
+// of the i-th variable of the template.
+func pathOrderRPC(pkg, name, verb string, declared, kinds []string, perm []int, descendingNumbers, interleave bool) (*Method, *Message) {
+	m := &Message{Name: name + "Req"}
+	bodiless := verb == "GET" || verb == "DELETE"
+	n := len(declared)
+	total := n
+	if interleave {
+		total = 2*n + 1
+	}
+	num := func(i int) int32 {
+		if descendingNumbers {
+			return int32(total + 1 - i)
+		}
+		return int32(i)
+	}
+	pos := 1
+	extra := func(k int) {
+		if !interleave {
+			return
+		}
+		if bodiless {
+			m.Fields = append(m.Fields, F(fmt.Sprintf("x_%d", k), num(pos), []string{"string", "int32", "bool"}[k%3], Query("", false)))
+		} else {
+			m.Fields = append(m.Fields, F(fmt.Sprintf("x_%d", k), num(pos), []string{"string", "int32", "bool"}[k%3]))
+		}
+		pos++
+	}
+	extra(0)
+	for i, d := range declared {
+		m.Fields = append(m.Fields, F(d, num(pos), kinds[i%len(kinds)]))
+		pos++
+		extra(i + 1)
+	}
+	path := "/" + strings.ToLower(name)
+	lits := []string{"orgs", "members", "items"}
+	for i, pi := range perm {
+		path += "/" + lits[i%3] + "/{" + declared[pi] + "}"
+	}
+	if len(perm)%2 == 0 {
+		path += "/tail"
+	}
+	return &Method{Name: name, In: pkg + "." + m.Name, Out: pkg + ".Resp", Verb: verb, Path: path, HasConfig: true}, m
+}
+
+var pathOrderKindSets = [][]string{
+	{"string", "string", "string"},
+	{"string", "int64", "bool"},
+	{"int64", "string", "uint32"},
+	{"sint32", "fixed64", "string"},
+	{"bool", "string", "int32"},
+}
+
+// PathOrderRequests: deterministic catalogue (two packages: with and without a base path).
+func PathOrderRequests() []*Request {
+	var out []*Request
+	names2 := []string{"user_id", "org_id"}
+	names3 := []string{"a_id", "b", "c9"}
+	verbs := []string{"GET", "PUT", "DELETE", "POST", "PATCH"}
+	for bi, base := range []string{"/o", ""} {
+		id := fmt.Sprintf("rtorder%d", bi)
+		pkg := id + ".v1"
+		f := &File{Messages: []*Message{M("Resp", F("ok", 1, "bool"), F("echo", 2, "string"))}}
+		svc := &Service{Name: "Ord", BasePath: base, HasConfig: base != ""}
+		k := 0
+		add := func(declared []string, perm []int, ks []string, verb string, desc, inter bool) {
+			k++
+			meth, msg := pathOrderRPC(pkg, fmt.Sprintf("R%d", k), verb, declared, ks, perm, desc, inter)
+			svc.Methods = append(svc.Methods, meth)
+			f.Messages = append(f.Messages, msg)
+		}
+		for pi, perm := range permutations(2) {
+			for ki, ks := range pathOrderKindSets {
+				for vi, v := range verbs {
+					if (pi+ki+vi+bi)%2 == 1 && ki > 1 {
+						continue
+					}
+					add(names2, perm, ks, v, (ki+vi)%3 == 1, (ki+vi)%2 == 0)
+				}
+			}
+		}
+		for pi, perm := range permutations(3) {
+			for ki, ks := range pathOrderKindSets {
+				if (pi+ki+bi)%2 == 1 && ki > 0 {
+					continue
+				}
+				add(names3, perm, ks, verbs[(pi+ki)%5], (pi+ki)%3 == 1, (pi+ki)%2 == 0)
+			}
+		}
+		f.Services = []*Service{svc}
+		r := OneFile(id, pkg, f)
+		r.Tags = []string{"runtime", "path-order"}
+		out = append(out, r)
+	}
+	return out
+}
+
+// RandomPathOrderRequests: seeded: 2-4 variables, random permutation, kinds, numbering, interleaving.
+func RandomPathOrderRequests(rng *rand.Rand, n int) []*Request {
+	var out []*Request
+	pool := []string{"id", "user_id", "org", "k9", "item_id", "n"}
+	kinds := []string{"string", "int64", "uint32", "bool", "int32", "sint64", "fixed32"}
+	verbs := []string{"GET", "PUT", "DELETE", "POST", "PATCH", ""}
+	for i := 0; i < n; i++ {
+		id := fmt.Sprintf("rtorderrand%d", i)
+		pkg := id + ".v1"
+		f := &File{Messages: []*Message{M("Resp", F("ok", 1, "bool"), F("echo", 2, "string"))}}
+		base := []string{"", "/api", "/b/v2"}[rng.Intn(3)]
+		svc := &Service{Name: fmt.Sprintf("O%d", i), BasePath: base, HasConfig: base != ""}
+		nm := 4 + rng.Intn(4)
+		for j := 0; j < nm; j++ {
+			nv := 2 + rng.Intn(3)
+			np := rng.Perm(len(pool))[:nv]
+			declared := make([]string, nv)
+			ks := make([]string, nv)
+			for x, pi := range np {
+				declared[x] = pool[pi]
+				ks[x] = kinds[rng.Intn(len(kinds))]
+			}
+			meth, msg := pathOrderRPC(pkg, fmt.Sprintf("R%d", j), verbs[rng.Intn(len(verbs))], declared, ks, rng.Perm(nv), rng.Intn(2) == 0, rng.Intn(2) == 0)
+			svc.Methods = append(svc.Methods, meth)
+			f.Messages = append(f.Messages, msg)
+		}
+		f.Services = []*Service{svc}
+		r := OneFile(id, pkg, f)
+		r.Tags = []string{"runtime", "path-order", "random"}
+		out = append(out, r)
+	}
+	return out
+}
+
+// ---- request messages that share a short name ------------------------------------------------------
+//
+// `Users.ListRequest` and `Posts.ListRequest` (nested in different parents), `Admin.Users.ListRequest`
+// (deeper), the same across two files of one Go package, and `a.v1.ListRequest` / `b.v1.ListRequest` in two
+// packages generated by ONE plugin invocation.  Each of them has its own URL configuration: different
+// query parameters (names, kinds, required), different path variables, none at all; in both orders
+// (the richer message first / last).  Every generator works per message, never per short name.
+
+func sameNameParent(parent string, variant int) *Message {
+	var list, get, upd *Message
+	switch variant % 4 {
+	case 0:
+		list = M("ListRequest", F("tenant", 1, "string"), F("page", 2, "int32", Query("page", true)), F("q", 3, "string", Query("", false)))
+		get = M("GetRequest", F("id", 1, "string"), F("verbose", 2, "bool", Query("v", false)))
+		upd = M("UpdateRequest", F("id", 1, "string"), F("mode", 2, "string", Query("mode", false)), F("note", 3, "string"))
+	case 1:
+		list = M("ListRequest", F("tenant", 1, "string"), F("author", 2, "string", Query("author", false)), F("limit", 3, "uint32", Query("limit", true)),
+			F("page", 4, "string", Query("p", false)))
+		get = M("GetRequest", F("id", 1, "int64"), F("rev", 2, "uint32", Query("rev", true)))
+		upd = M("UpdateRequest", F("id", 1, "int64"), F("force", 2, "bool", Query("force", true)), F("note", 3, "string"), F("mode", 4, "string"))
+	case 2:
+		list = M("ListRequest", F("tenant", 1, "string"))
+		get = M("GetRequest", F("id", 1, "string"))
+		upd = M("UpdateRequest", F("id", 1, "string"), F("note", 2, "string"))
+	case 3:
+		list = M("ListRequest", F("q", 1, "int64", Query("q", false)), F("tenant", 2, "string"), F("page", 3, "bool", Query("page", false)), F("tags", 4, "string", Rep(), Query("tag", false)))
+		get = M("GetRequest", F("key", 1, "string"), F("id", 2, "uint64"), F("verbose", 3, "string", Query("verbose", true)))
+		upd = M("UpdateRequest", F("key", 1, "string"), F("note", 2, "string"), F("mode", 3, "int32", Query("m", false)))
+	}
+	return M(parent).WithNested(list, get, upd)
+}
+
+func sameNameMethods(pkg, parentPath, tag string, variant int) []*Method {
+	in := func(n string) string { return pkg + "." + parentPath + "." + n }
+	lower := strings.ToLower(tag)
+	getPath := "/" + lower + "/{id}"
+	updPath := "/" + lower + "/{id}"
+	if variant%4 == 3 {
+		getPath = "/" + lower + "/{key}/{id}"
+		updPath = "/" + lower + "/{key}"
+	}
+	return []*Method{
+		RPC("List"+tag, in("ListRequest"), pkg+".Resp", "GET", "/t/{tenant}/"+lower),
+		RPC("Get"+tag, in("GetRequest"), pkg+".Resp", "GET", getPath),
+		RPC("Drop"+tag, in("GetRequest"), pkg+".Resp", "DELETE", getPath),
+		RPC("Update"+tag, in("UpdateRequest"), pkg+".Resp", "PUT", updPath),
+		RPC("Patch"+tag, in("UpdateRequest"), pkg+".Resp", "PATCH", updPath),
+	}
+}
+
+// SameShortNameRequests: server-only packages (repeated query fields do not compile in the Go client).
+func SameShortNameRequests() []*Request {
+	var out []*Request
+	// (a) one file, four parents, in two orders; one of them nested one level deeper; two services
+	for oi, order := range [][]int{{0, 1, 2, 3}, {2, 3, 1, 0}} {
+		id := fmt.Sprintf("rtsame%d", oi)
+		pkg := id + ".v1"
+		f := &File{Messages: []*Message{M("Resp", F("ok", 1, "bool"))}}
+		tags := []string{"Users", "Posts", "Tags", "Keys"}
+		svc := Svc("Dir", "/d")
+		svc2 := Svc("Second", "")
+		for k, v := range order {
+			parent := sameNameParent(tags[v], v)
+			path := tags[v]
+			if v == 1 {
+				f.Messages = append(f.Messages, M("Admin").WithNested(parent))
+				path = "Admin." + tags[v]
+			} else {
+				f.Messages = append(f.Messages, parent)
+			}
+			ms := sameNameMethods(pkg, path, tags[v], v)
+			if k == 3 {
+				svc2.Methods = append(svc2.Methods, ms...)
+			} else {
+				svc.Methods = append(svc.Methods, ms...)
+			}
+		}
+		f.Services = []*Service{svc, svc2}
+		r := OneFile(id, pkg, f)
+		r.Tags = []string{"runtime", "server-only", "same-short-name"}
+		out = append(out, r)
+	}
+	// (a') two files of ONE Go package (one proto package), each with its own parents and its own service;
+	// the plugin handles both files in one invocation
+	{
+		id := "rtsame2f"
+		pkg := id + ".v1"
+		var files []*File
+		for k := 0; k < 2; k++ {
+			v := []int{2, 1}[k]
+			tag := []string{"Tags", "Posts"}[k]
+			f := &File{Path: fmt.Sprintf("%s/f%d.proto", id, k), Package: pkg, GoPackage: fmt.Sprintf("verifgen/%s;%s", id, id), Generate: true,
+				Messages: []*Message{sameNameParent(tag, v)}}
+			if k == 0 {
+				f.Messages = append(f.Messages, M("Resp", F("ok", 1, "bool")))
+			} else {
+				f.Imports = []string{fmt.Sprintf("%s/f0.proto", id)}
+			}
+			svc := Svc("Dir"+tag, "/"+strings.ToLower(tag))
+			svc.Methods = sameNameMethods(pkg, tag, tag, v)
+			f.Services = []*Service{svc}
+			files = append(files, f)
+		}
+		out = append(out, &Request{ID: id, Files: files, Tags: []string{"runtime", "server-only", "same-short-name", "two-files"}})
+	}
+	// (b) two packages (two Go packages) generated by one plugin invocation, top-level messages of the same
+	// names; in both file orders
+	for oi := 0; oi < 2; oi++ {
+		id := fmt.Sprintf("rtsamepk%d", oi)
+		var files []*File
+		for k := 0; k < 2; k++ {
+			v := []int{0, 1}[k]
+			if oi == 1 {
+				v = []int{3, 0}[k]
+			}
+			sub := fmt.Sprintf("%s%c", id, 'a'+k)
+			pkg := sub + ".v1"
+			parent := sameNameParent("X", v)
+			f := &File{Path: sub + "/x.proto", Package: pkg, GoPackage: fmt.Sprintf("verifgen/%s;%s", sub, sub), Generate: true,
+				Messages: append([]*Message{M("Resp", F("ok", 1, "bool"))}, parent.Nested...)}
+			tag := []string{"Users", "Posts"}[k]
+			svc := Svc("Dir"+strings.ToUpper(string(rune('a'+k))), "/"+sub)
+			for _, m := range sameNameMethods(pkg, "X", tag, v) {
+				m.In = strings.Replace(m.In, ".X.", ".", 1)
+				svc.Methods = append(svc.Methods, m)
+			}
+			f.Services = []*Service{svc}
+			files = append(files, f)
+		}
+		r := &Request{ID: id, Files: files, Tags: []string{"runtime", "server-only", "same-short-name", "multi-package"}}
+		out = append(out, r)
+	}
+	return out
+}
+
+// SplitByGoPackage turns the output of ONE generation run over several Go packages into one
+// (request, output) pair per Go package, so that each package can be compiled and driven on its own
+// (Session.BuildRuntime handles one Go package per request).  The plugin processes are not run again:
+// what is compiled is what the joint invocation emitted.  Files must not import each other.
+func SplitByGoPackage(r *Request, g *GenOutput) ([]*Request, []*GenOutput) {
+	var reqs []*Request
+	var gens []*GenOutput
+	seen := map[string]bool{}
+	for _, f := range r.Files {
+		if !f.Generate || seen[f.GoPackage] {
+			continue
+		}
+		seen[f.GoPackage] = true
+		dir := strings.TrimPrefix(goImportPath(f.GoPackage), "verifgen/")
+		sub := &Request{ID: dir, Params: r.Params, Tags: append([]string{}, r.Tags...)}
+		for _, x := range r.Files {
+			if x.GoPackage == f.GoPackage {
+				sub.Files = append(sub.Files, x)
+			}
+		}
+		filter := func(p *PluginResult) *PluginResult {
+			if p == nil {
+				return nil
+			}
+			q := *p
+			q.Files = map[string]string{}
+			q.Names = nil
+			for _, n := range p.Names {
+				if strings.HasPrefix(n, dir+"/") {
+					q.Files[n] = p.Files[n]
+					q.Names = append(q.Names, n)
+				}
+			}
+			return &q
+		}
+		sg := &GenOutput{Req: sub, Built: g.Built, PB: filter(g.PB), Results: map[string]*PluginResult{}}
+		for k, v := range g.Results {
+			if k == "go-http" || k == "go-client" {
+				sg.Results[k] = filter(v)
+			} else {
+				sg.Results[k] = v
+			}
+		}
+		reqs = append(reqs, sub)
+		gens = append(gens, sg)
+	}
+	return reqs, gens
 }
